@@ -657,6 +657,8 @@ def correspondence(ctx):
                 org = o.generate_origin_obj()
                 par = {"state": 1 / np.sqrt(d), "povm": np.sqrt(d) / m}.get(ty, 0.0)
                 pend.append((f"{ty} origin", (bname, m), qlist(org.to_stacked_vector()), drv.ask("origin", ty, d * d, m, q(par)), "list"))
+                zst = o.generate_zero_obj().to_stacked_vector()
+                pend.append((f"{ty} zero", (bname, m), qlist(zst), drv.ask("zero", len(zst)), "list"))
     out = drv.run()
     for p in pend:
         op, inp, impl, i = p[:4]
@@ -671,13 +673,17 @@ def correspondence(ctx):
 
 PARTIAL = [
     "traceOne / identitySum verdict <=> defect <= atol holds only if the generated rtol of State.is_trace_one / Povm.is_identity_sum is 0 "
-    "(theorems traceOne_exact_iff_rtol_zero, identitySum_exact_iff_rtol_zero); on the current tree it is 1e-5 (defect D1, open known finding)",
-    "psdVerdict_iff_posSemidef_matrix / statePhysical_iff_matrix / gatePhysical_iff_matrix: stated on the Mathlib matrix the model matrix denotes, "
-    "under the explicit contract that the eigenvalue list is the spectrum (np.linalg.eigvalsh) and for an exactly Hermitian matrix; float accuracy "
-    "of eigvalsh is not modelled",
+    "(traceOne_exact_iff_rtol_zero, identitySum_exact_iff_rtol_zero); on the current tree it is 1e-5 (defect D1, open known finding; closed "
+    "witnesses traceOne_exact_fails, identitySum_exact_fails)",
+    "PSD verdict <-> Matrix.PosSemidef is a sandwich (psdVerdict_sandwich_matrix, state/gatePhysical_sandwich_matrix) under the explicit contracts: "
+    "M exactly Hermitian, eigvalsh list eps-accurate (EigApprox); psdVerdict_eigs_iff_posSemidef_exact_partial needs a rational spectrum; "
+    "POVM / measurement-process verdicts are reduced to per-element psdVerdict (povmPsd_iff, mpCp_iff), the matrix-level sandwich is applied per element",
     "the basis verdicts is_normal / is_orthogonal / is_0thpropI themselves are not modelled (their results are parameters of the generated flag "
-    "aggregation); the oracle decides the flag from the basis matrices independently",
-    "tp_branches_relation is stated for the trace list (tau,0,...,0) of an identity-first basis (tau = Tr B_0 > 0 rational parameter; sqrt d is irrational)",
+    "aggregation); the TP verdict is characterised syntactically (tp_row_iff, tpTrace_iff), 'trace preserving as a map' is not stated",
+    "origin objects are proved physical as scalar operator matrices (origin_state_physical, origin_povm_physical, origin_gate_tp, "
+    "origin_mprocess_sum_tp) for identity-first orthonormal bases only; that the library's origin arrays denote these operators is checked on the "
+    "real code; on other Hermitian bases the library's origin object is not physical (finding C01-F2)",
+    "earlier ValueError branches of the constructors (shape, dtype, dimension) are not part of Ctor",
 ]
 
 
@@ -1023,8 +1029,30 @@ def check_bases(ctx):
                         f"basis is {'not ' if not want else ''}orthonormal Hermitian identity-first", rep)
 
 
+def check_origin_generic(ctx):
+    """origin objects on Hermitian bases that are not orthonormal identity-first (State / Povm / Gate accept such bases)"""
+    for bname in ("herm_noid", "herm_xfirst", "pauli_unnorm"):
+        c, B = csys(bname)
+        d = c.dim
+        kw = dict(is_physicality_required=False)
+        srcs = {"state": State(c, coeffs(B, np.eye(d) / d), **kw), "povm": Povm(c, [coeffs(B, np.eye(d) / 2)] * 2, **kw),
+                "gate": Gate(c, hs_unitary(B, np.eye(d)), **kw)}
+        for ty, o in srcs.items():
+            ctx.case(("origin-generic", bname, ty), nontrivial=True)
+            rep = {"kind": "origin-generic", "basis": bname, "type": ty}
+            try:
+                ok = bool(o.generate_origin_obj().is_physical())
+            except Exception as e:  # noqa
+                ctx.violate(f"C01/{CLSNAME[ty]}.generate_origin_obj/raises/generic-basis", f"{bname}: {type(e).__name__}: {e}", rep); continue
+            if not ok:
+                ctx.violate("C01/generate_origin_obj/not-physical/non-identity-first-basis",
+                            f"{bname}: the origin object of a {CLSNAME[ty]} is not physical (the origin arrays e0 / E00 assume an "
+                            "orthonormal identity-first basis)", rep)
+
+
 def oracle(ctx, volume=1):
     check_bases(ctx)
+    check_origin_generic(ctx)
     check_constructor_variants(ctx)
     g = ctx.npgen(2)
     k = 0
@@ -1063,6 +1091,8 @@ def replay(ctx, data):
         check_origin(ctx, r["basis"], r["m"], ctx.npgen(3))
     elif r["kind"] == "basis":
         check_bases(ctx)
+    elif r["kind"] == "origin-generic":
+        check_origin_generic(ctx)
     elif r["kind"] == "ctor-variant":
         check_constructor_variants(ctx)
     else:
